@@ -57,9 +57,21 @@ def setLenAnis (dim : Nat) (lenScale anis : List α) : Except String (α × List
 /-- `np.eye(dim)` -/
 def eye : Nat → Nat → α := fun i j => if i = j then ((1:Nat):α) else ((0:Nat):α)
 
+/-- row-major table of the `d × d` block of `f` -/
+def tabArr (d : Nat) (f : Nat → Nat → α) : Array α :=
+  Array.ofFn (n := d * d) fun k => f (k.val / d) (k.val % d)
+
+/-- read a `d × d` row-major table, falling back to `f` outside the block -/
+def ofArr (d : Nat) (a : Array α) (f : Nat → Nat → α) : Nat → Nat → α :=
+  fun i j => if h : j < d ∧ j + i * d < a.size then a[j + i * d]'h.2 else f i j
+
+/-- evaluate the `d × d` block of `f` once (numpy materialises every intermediate matrix; without
+    this the closures re-evaluate all factors for every entry).  `memo2 d f = f` (`memo2_eq`). -/
+def memo2 (d : Nat) (f : Nat → Nat → α) : Nat → Nat → α := ofArr d (tabArr d f) f
+
 /-- `np.matmul(A, B)` for `dim × dim` matrices -/
 def matmul (dim : Nat) (A B : Nat → Nat → α) : Nat → Nat → α :=
-  fun i j => forRange 0 dim ((0:Nat):α) fun k acc => acc + A i k * B k j
+  memo2 dim fun i j => forRange 0 dim ((0:Nat):α) fun k acc => acc + A i k * B k j
 
 /-- `A.T` -/
 def transpose (A : Nat → Nat → α) : Nat → Nat → α := fun i j => A j i
